@@ -124,7 +124,8 @@ def show(v, depth=0):
         return "%s{%s}" % (v[1].split("::")[-2] + "::" + v[1].split("::")[-1] if "::" in v[1] else v[1],
                            ", ".join(show(a, depth + 1) for a in v[3])) + (":" + v[2] if v[2] else "")
     if t == "app":
-        return "%s(%s)" % (v[1].split("::")[-1], ", ".join(show(a, depth + 1) for a in v[2]))
+        return "%s(%s)" % (v[1].split("<")[0].split("::")[-1] if not v[1].startswith(("holds<", "alt_payload<")) else v[1],
+                           ", ".join(show(a, depth + 1) for a in v[2]))
     if t == "fld":
         return "%s.%s" % (show(v[1], depth + 1), v[2])
     if t == "tuple":
@@ -232,6 +233,20 @@ class Interp:
                 continue
             out.append(p)
         return out
+
+    def run_lambda(self, closure, op, args):
+        """evaluate one call-operator specialisation of a closure under self.oracle, which must decide
+        every atom (finite abstract domain); returns (value, path)"""
+        self.path = Path()
+        self.pre = []
+        self.assign = {}
+        self.depth = 0
+        self.steps = 0
+        try:
+            v = self.apply_lambda_op(closure, op, args)
+        except NeedDecision as nd:
+            raise Unsupported("atom not decided by the abstract domain: %s" % show(nd.atom))
+        return v, self.path
 
     def decide(self, atom):
         """truth of an atom on this path"""
